@@ -135,8 +135,32 @@ def main():
     run.notes["premises_from_other_checks"] = premises
     run.notes["derivation"] = ("C01: every option variant's T_serialize_ == Enc_T; C02: every variant's T_deserialize_ == Dec_T; lemmas here: Dec_T(Enc_T(x)) == cast_T(x) and "
                                "length facts.  Hence: decode(encode(x)) == cast(x) for the generated C, identical bytes/values across the verified option variants.")
+    # Python leg (bounded, never counted as proved): the generated Python round trip, executed natively
+    from contracts import py_leg
+    from vk import render
+    pw = pathlib.Path(tempfile.mkdtemp(prefix="vk_c03py_"))
+    try:
+        render.render_types("py", PP.CORPUS / "vk", pw, {})
+        try:
+            bad, n, err = py_leg.roundtrip_py(sorted(types, key=str), pw, 100 if args.tier != "thorough" else 1500)
+        except Exception as ex:  # the stand-in must never turn into a verdict by crashing
+            bad, n, err = [], 0, f"{type(ex).__name__}: {ex}"
+    finally:
+        shutil.rmtree(pw, ignore_errors=True)
+    if err:
+        run.undecide(f"Python round-trip stand-in: {err[:300]}")
+    else:
+        run.add_bounded("native [py]: serialize -> deserialize -> serialize with the generated Python: identical bytes, decoded value == cast-mode adjusted value",
+                        f"{len(types)} corpus types x boundary + pseudo-random objects (array elements outside the DSDL range, non-finite floats)", n, not bad,
+                        "" if not bad else f"{bad[0][0]}: {bad[0][1]['why'][:300]}")
+        for t, w in bad:
+            run.fail(report.Failure(f"native[py]:{t}#python-round-trip", "post", f"generated Python for {t}: {str(w['input'])[:300]}: {w['why'][:500]}", {"witness": w}, True))
+    run.notes["cross_target_derivation"] = ("C: every option variant proved equal to Enc_T/Dec_T (C01/C02). C++ (c++14; c++17/20 in the thorough tier) and Python: generated codecs executed against the "
+                                            "independent reference codec in the bounded legs of C01/C02, which itself agrees with the proved C code on every corpus type. Hence identical bytes/values across "
+                                            "targets on everything explored; unbounded only for the C target.")
     run.trust("z3", "SPEC (vk/spec.py)", "C01 and C02 (premises; their evidence files are read, not re-proved here)")
-    run.assume("C++ and Python legs, and the container-type options, are not reached: the cross-target clause is decided for the C target's option variants only")
+    run.assume("the cross-target clause is decided deductively for the C target's option variants only; C++ and Python agree with the specification on the bounded inputs of C01/C02 (stand-ins); "
+               "the C++ allocator/container options are not reached")
     run.explanation = "round trip and option independence as lemmas over the specification functions that the per-program contracts use"
     return run.finish()
 
